@@ -395,7 +395,17 @@ def run(ctx):
         l = C.enclosing_loop(k)
         if isinstance(l, ast.For) and covers_workers(l) and (any(n in l.body or C.in_subtree(l, p) for p in polls for n in [l])
                                                                 or any(cfg.dominates(s_, l) for s_ in sets)):
-            alive = any(p2 and "is_alive()" in U(e) for e, p2 in C.facts_at(k, stop=l)) or (U(l.iter) != plist)   # (a list of live workers)
+            def live_only(l_):
+                # the loop variable ranges over workers a poll has just seen alive (every reaching definition is such a filter)
+                if not isinstance(l_.iter, ast.Name):
+                    return False
+                try:
+                    ds2 = C.flow_of(f).reaching(l_, l_.iter.id)
+                except Exception:
+                    return False
+                return bool(ds2) and all(getattr(d2, "value", None) is not None and isinstance(d2.value, (ast.ListComp, ast.GeneratorExp))
+                                         and any("is_alive()" in U(c2) for g2 in d2.value.generators for c2 in g2.ifs) for d2 in ds2)
+            alive = any(p2 and "is_alive()" in U(e) for e, p2 in C.facts_at(k, stop=l)) or live_only(l)
             j = [s for s in l.body if U(s) == "%s.join()" % U(l.target)]
             order = bool(j) and cfg.reachable(k, j[0], within=l) and not cfg.reachable(j[0], k, within=l)
             # (on the time-out path: the exhaustion branch of `while <clock test>: .. else:`, or after timed_out was set)
